@@ -76,13 +76,19 @@ NEW = {
     "PyTuple_New", "PyTuple_Pack", "PyList_New", "PyDict_New", "PyDict_Copy", "PySequence_List",
     "PySequence_Tuple", "PyObject_GetAttr", "PyObject_GetAttrString", "PyObject_GenericGetAttr",
     "PyLong_FromLong", "PyLong_FromSsize_t", "Py_BuildValue", "PyUnicode_Concat", "PyUnicode_FromString",
-    "PyUnicode_FromFormat", "PyObject_Repr", "PyObject_Str",
+    "PyUnicode_FromFormat", "PyObject_Repr", "PyObject_Str", "PyType_GenericNew", "PyNumber_Index", "PyNumber_Long",
+    "PyNumber_Float", "PyFloat_FromDouble", "PyLong_FromUnsignedLong", "PyComplex_FromCComplex",
+    "PyComplex_FromDoubles", "PyObject_CallNoArgs", "PyObject_CallOneArg", "PyType_GenericAlloc",
     # functions of ctraits.c that return a new reference or NULL
     "default_value_for", "call_class", "has_traits_getattro", "get_trait",
 }
-NEW_FIELDS = {"validate", "getattr", "delegate_attr_name", "tp_getattro"}   # calls through these pointers
-BORROWED = {"PyDict_GetItem", "PyDict_GetItemWithError", "PyTuple_GET_ITEM", "PyTuple_GetItem",
+NEW_FIELDS = {"validate", "getattr", "delegate_attr_name", "tp_getattro", "tp_new"}   # calls through these pointers
+BORROWED = {"PyErr_Occurred", "PyDict_GetItem", "PyDict_GetItemWithError", "PyTuple_GET_ITEM", "PyTuple_GetItem",
             "PyList_GET_ITEM", "PyList_GetItem", "dict_getitem", "get_prefix_trait", "Py_TYPE"}
+ALLOCATORS = {"PyType_GenericAlloc", "PyType_GenericNew"}    # zero-filled new object: its object fields are NULL
+ALLOC_FIELDS = {"tp_new", "tp_alloc"}
+FORCED_UNREAD = {"dict_getitem": "returns a borrowed reference by design (listed in BORROWED)",
+                 "get_prefix_trait": "returns a borrowed reference by design (listed in BORROWED)"}
 ALWAYS_NULL = {"PyErr_Format", "PyErr_NoMemory"}      # set an exception, return NULL
 NEUTRAL = {
     "PyDict_SetItem", "PyDict_DelItem", "PyUnicode_Check", "PyErr_ExceptionMatches", "PyErr_SetObject",
@@ -92,6 +98,14 @@ NEUTRAL = {
     "PyLong_AsLong", "Py_EnterRecursiveCall", "Py_LeaveRecursiveCall", "PyException_SetTraceback",
     "_warn_on_attribute_error", "trait_clone", "PyObject_GenericSetAttr",
     "has_traits_setattro", "trait_property_changed",
+    # int / Py_ssize_t / double returning, no reference taken or given (CPython documentation)
+    "PyObject_IsTrue", "PyMapping_Size", "PyDict_Size", "PyTuple_Check", "PyObject_TypeCheck", "PyObject_IsInstance",
+    "PyLong_CheckExact", "PyFloat_CheckExact", "PySequence_Contains", "PyUnicode_READY", "PyList_Check",
+    "PyFloat_AS_DOUBLE", "PyFloat_AsDouble", "PyLong_Check", "PyFloat_Check", "PyUnicode_GET_LENGTH",
+    "PyObject_IsSubclass", "PyObject_RichCompareBool", "PyTuple_Size", "PyList_Size", "PyList_GET_SIZE",
+    "PyObject_SetAttr", "PyObject_SetAttrString", "PyDict_Contains", "PyList_Append", "PyErr_BadInternalCall",
+    "PyTrait_CheckExact", "PyUnicode_KIND", "PyUnicode_READ", "PyUnicode_DATA", "PyComplex_CheckExact",
+    "PyComplex_AsCComplex", "PyComplex_Check", "PyLong_AsUnsignedLong", "PyLong_AsSsize_t",
 }
 NEUTRAL_FIELDS = {"post_setattr", "setattr"}
 NEUTRAL_RE = re.compile(r"^\w+_error2?$")          # the int-returning error helpers of ctraits.c
@@ -105,7 +119,7 @@ OBJ_TYPES = {"PyObject", "PyListObject", "PyDictObject", "PyTypeObject", "PyTupl
              "has_traits_object", "a_trait_object"}
 SCALAR_TYPES = {"int", "unsigned", "long", "short", "char", "void", "Py_ssize_t", "size_t", "double", "float",
                 "trait_getattr", "trait_setattr", "trait_post_setattr", "trait_validate",
-                "delegate_attr_name_func", "Py_hash_t"}
+                "delegate_attr_name_func", "Py_hash_t", "Py_complex", "Py_UCS4"}
 QUALS = {"const", "static", "register", "volatile", "struct"}
 TYPES = OBJ_TYPES | SCALAR_TYPES | QUALS
 
@@ -211,8 +225,11 @@ class Parser:
             if v == "for":
                 self.nxt()
                 self.expect("(")
-                init = None if self.peek()[1] == ";" else self.expr()
-                self.expect(";")
+                if self.peek()[0] == "id" and self.peek()[1] in TYPES:
+                    init = self.declaration()           # consumes the ';'
+                else:
+                    init = None if self.peek()[1] == ";" else ("expr", self.expr())
+                    self.expect(";")
                 cond = None if self.peek()[1] == ";" else self.expr()
                 self.expect(";")
                 step = None if self.peek()[1] == ")" else self.expr()
@@ -242,6 +259,11 @@ class Parser:
                 self.nxt()
                 self.expect(";")
                 return ("continue",)
+            if v in ("Py_RETURN_TRUE", "Py_RETURN_FALSE", "Py_RETURN_NONE") and self.peek(1) == ("op", ";"):
+                self.nxt()
+                self.nxt()
+                obj = ("id", {"Py_RETURN_TRUE": "Py_True", "Py_RETURN_FALSE": "Py_False", "Py_RETURN_NONE": "Py_None"}[v])
+                return ("block", [("expr", ("call", ("id", "Py_INCREF"), [obj])), ("return", obj)])
             if v in ("do", "typedef", "union", "enum", "asm", "__asm__"):
                 raise Shape("%s: statement form %r is not understood" % (self.fn, v))
             if self.peek(1) == ("op", ":") and v not in TYPES:
@@ -474,8 +496,10 @@ class Out:
 
 
 class Interp:
-    def __init__(self, fname, ret_obj, params, obj_fields, body):
+    def __init__(self, fname, ret_obj, params, obj_fields, body, local_kinds=None):
         self.fn, self.ret_obj, self.obj_fields = fname, ret_obj, obj_fields
+        self.local_kinds = local_kinds or {}
+        self.local_calls = set()
         self.locals = set()
         self.stores = set()
         self.body = body
@@ -514,21 +538,31 @@ class Interp:
         if v[0] == "int":
             return [(st, v[1] != 0)]
         if v[0] == "ptr":
-            if st.nul.get(v[1]) == "nn":
+            if st.nul.get(v[1]) in ("nn", "fresh"):
                 return [(st, True)]
             return [(self.refine_nn(st, v[1]), True), (self.refine_null(st, v[1]), False)]
         return [(st, True), (st, False)]
 
-    def new_value(self, st, base, may_null=True):
+    def new_value(self, st, base, may_null=True, alloc=False):
         """Fork: the call returned NULL / returned a new reference."""
         out = []
         if may_null:
             out.append((st, NULLV))
         s2 = st.copy()
-        v = self.fresh(s2, base, "nn")
+        v = self.fresh(s2, base, "fresh" if alloc else "nn")
         self.emit(s2, v[1], "new")
         out.append((s2, v))
         return out
+
+    def base_is_null(self, st, e):
+        return e[1][0] == "id" and st.env.get(e[1][1]) == NULLV
+
+    def base_is_fresh(self, st, e):
+        b = e[1]
+        if b[0] != "id":
+            return False
+        v = st.env.get(b[1])
+        return v is not None and v[0] == "ptr" and st.nul.get(v[1]) == "fresh"
 
     # -- lvalues
     def lkey(self, e):
@@ -554,8 +588,11 @@ class Interp:
         field = lhs[2]
         if self.obj_fields.get(field) is True:
             old = st.env.get(key)
-            if old is None:
-                old = self.fresh(st, key, "unk")
+            if old is None and self.base_is_null(st, lhs):
+                self.emit(st, "NULL:" + lhs[1][1], "bad")
+                old = NULLV
+            elif old is None:
+                old = NULLV if self.base_is_fresh(st, lhs) else self.fresh(st, key, "unk")
             if old[0] == "ptr":
                 self.emit(st, old[1], "take")
             elif old != NULLV:
@@ -601,6 +638,12 @@ class Interp:
             if key in st.env:
                 return [(st, st.env[key])]
             st = st.copy()
+            if self.base_is_null(st, e):
+                self.emit(st, "NULL:" + e[1][1], "bad")      # field access through a pointer known to be NULL
+                return [(st, NULLV if self.obj_fields.get(e[2]) is True else OPQ)]
+            if self.base_is_fresh(st, e) and self.obj_fields.get(e[2]) is True:
+                st.env[key] = NULLV
+                return [(st, NULLV)]
             v = self.fresh(st, key, "unk")
             st.env[key] = v
             return [(st, v)]
@@ -723,8 +766,10 @@ class Interp:
             return st
         if v[0] != "ptr":
             raise Shape("%s: %s of the untracked value %s" % (self.fn, what, text_of(arg)))
-        if not x_variant:
+        if not x_variant and st.nul.get(v[1]) == "unk":
             st.nul[v[1]] = "nn"
+        if what == "Py_CLEAR" and arg[0] == "mem" and self.obj_fields.get(arg[2]) is True:
+            self.emit(st, v[1], "take")      # the field is emptied: the struct's reference is released here
         self.emit(st, v[1], {"Py_INCREF": "inc", "Py_XINCREF": "inc", "Py_DECREF": "dec",
                              "Py_XDECREF": "xdec", "Py_CLEAR": "xdec"}[what])
         if what == "Py_CLEAR":
@@ -786,17 +831,28 @@ class Interp:
                         raise Shape("%s: untracked value handed to %s" % (self.fn, name))
                 res.append((s, OPQ))
             elif (name in NEW) or (field in NEW_FIELDS):
-                res += self.new_value(s, (name or ("->" + field)) + "()")
+                res += self.new_value(s, (name or ("->" + field)) + "()",
+                                      alloc=(name in ALLOCATORS or field in ALLOC_FIELDS))
             elif name in BORROWED:
                 s = s.copy()
                 v = self.fresh(s, name + "()", "nn" if name == "Py_TYPE" else "unk")
                 res.append((s, v))
             elif name in ALWAYS_NULL:
                 res.append((s, NULLV))
-            elif (name in NEUTRAL) or (field in NEUTRAL_FIELDS) or (name and NEUTRAL_RE.match(name)):
+            elif (name in NEUTRAL) or (field in NEUTRAL_FIELDS):
+                res.append((s, OPQ))
+            elif name in self.local_kinds:
+                # a function of ctraits.c itself: classified by its return type; sound only if that function is
+                # read and balanced (emit() moves callers of unread functions to `unread`)
+                self.local_calls.add(name)
+                if self.local_kinds[name]:
+                    res += self.new_value(s, name + "()")
+                else:
+                    res.append((s, OPQ))
+            elif name and NEUTRAL_RE.match(name):
                 res.append((s, OPQ))
             else:
-                raise Shape("%s: call of %s is in none of the API tables" % (self.fn, name or ("->" + field)))
+                raise Shape("unknown call %s" % (name or ("->" + field)))
         return res
 
     # -- naming of values produced by calls: a value assigned to a variable takes the variable's name
@@ -904,7 +960,7 @@ class Interp:
         if k == "for":
             cur = states
             if stmt[1] is not None:
-                cur = self.run_expr(stmt[1], cur)
+                cur = self.exec(stmt[1], cur).normal
             for it in range(3):
                 if stmt[2] is not None:
                     enter, leave = self.split(stmt[2], cur)
@@ -1074,7 +1130,7 @@ def header_of(src, name, body_open):
     ret_void = rt_toks == ["void"] or rt_toks == ["static", "void"]
     params = []
     for p in plist.split(","):
-        p = p.strip()
+        p = re.sub(r"Py_UNUSED\(\s*(\w+)\s*\)", r"\1", p.strip())
         if p == "void" or not p:
             continue
         mm = re.match(r"^((?:\w+\s+)+)(\**)\s*(\w+)$", p, flags=re.S)
@@ -1091,7 +1147,18 @@ def header_of(src, name, body_open):
     return ret_obj, ret_void, params
 
 
-def analyse(src, funcs, fields, name):
+def local_kinds_of(src, funcs):
+    """function of ctraits.c -> does it return an object pointer (header unreadable: not listed)."""
+    kinds = {}
+    for (n, a, _) in funcs:
+        try:
+            kinds[n] = header_of(src, n, a)[0]
+        except Shape:
+            pass
+    return kinds
+
+
+def analyse(src, funcs, fields, name, local_kinds=None, want_calls=False):
     hits = [(a, b) for (n, a, b) in funcs if n == name]
     if len(hits) != 1:
         raise Shape("%s: %d definitions found" % (name, len(hits)))
@@ -1101,7 +1168,7 @@ def analyse(src, funcs, fields, name):
     body = p.block_items(top=True)
     if p.peek()[0] != "eof":
         raise Shape("%s: trailing tokens" % name)
-    it = Interp(name, ret_obj, params, fields, body)
+    it = Interp(name, ret_obj, params, fields, body, local_kinds)
     it.ret_is_void = ret_void
     rets = it.run()
     raw = len(rets)
@@ -1114,7 +1181,54 @@ def analyse(src, funcs, fields, name):
     paths.sort(key=lambda p: (p[0], p[2]))
     if len(paths) > MAX_PATHS:
         raise TooLarge("%s: %d distinct paths (limit %d)" % (name, len(paths), MAX_PATHS))
+    if want_calls:
+        return raw, paths, sorted(it.stores), set(it.local_calls)
     return raw, paths, sorted(it.stores)
+
+
+def read_all(src):
+    """([(function, end states, paths, stores)], [(function, reason)]) over EVERY function definition of the file,
+    in source order.  A function the reader cannot handle is `unread` with the reason; so is, transitively, every
+    function that calls an unread function of ctraits.c whose reference behaviour is therefore not established
+    (calls listed in the explicit API tables excepted)."""
+    funcs = functions(src)
+    fields = read_obj_fields(src)
+    kinds = local_kinds_of(src, funcs)
+    seen, results, calls, unread = set(), {}, {}, {}
+    order = []
+    for (name, _, _) in funcs:
+        if name in seen:
+            unread[name] = "defined more than once"
+            results.pop(name, None)
+            continue
+        seen.add(name)
+        order.append(name)
+        if name in FORCED_UNREAD:
+            unread[name] = FORCED_UNREAD[name]
+            continue
+        try:
+            raw, paths, stores, lc = analyse(src, funcs, fields, name, kinds, want_calls=True)
+            results[name] = (raw, paths, stores)
+            calls[name] = lc
+        except RecursionError:
+            unread[name] = "too deeply nested"
+        except Shape as e:
+            msg = str(e)
+            unread[name] = msg[len(name) + 2:] if msg.startswith(name + ": ") else msg
+    changed = True
+    while changed:
+        changed = False
+        for name in order:
+            if name in results:
+                bad = sorted(c for c in calls[name] if c in unread and not NEUTRAL_RE.match(c))
+                if bad:
+                    del results[name]
+                    unread[name] = "calls the unread function %s" % bad[0]
+                    changed = True
+    for must in REQUIRED:
+        if must not in results:
+            raise Shape("required function %s is unread: %s" % (must, unread.get(must, "not found")))
+    return ([(n,) + results[n] for n in order if n in results], [(n, unread[n]) for n in order if n in unread])
 
 
 def lean_str(s):
@@ -1123,16 +1237,7 @@ def lean_str(s):
 
 def emit(traits_dir):
     src = strip_comments(open(os.path.join(traits_dir, "ctraits.c")).read())
-    funcs = functions(src)
-    fields = read_obj_fields(src)
-    results, refused = [], []
-    for name in FUNCTIONS:
-        try:
-            results.append((name,) + analyse(src, funcs, fields, name))
-        except TooLarge as e:
-            if name in REQUIRED:
-                raise
-            refused.append((name, str(e)))
+    results, unread = read_all(src)
     names = []
     for (_, _, paths, _) in results:
         for (_, _, evs) in paths:
@@ -1150,11 +1255,11 @@ def emit(traits_dir):
     L.append("/-! Reference-count events of every control-flow path (loops unrolled 0-2 times) of the functions")
     L.append("listed in `covered`; paths with the same end and the same events are listed once. -/")
     L.append("")
-    L.append("/-- Functions read, in the order of `harness/translate/crefpaths.py` `FUNCTIONS`. -/")
+    L.append("/-- Functions read (every definition of the file that is not in `unread`), in source order. -/")
     L.append("def covered : List String := [%s]" % ", ".join(lean_str(r[0]) for r in results))
     L.append("")
-    L.append("/-- Functions understood but refused for size (not covered): (function, reason). -/")
-    L.append("def refused : List (String × String) := [%s]" % ", ".join("(%s, %s)" % (lean_str(a), lean_str(b)) for a, b in refused))
+    L.append("/-- Function definitions of ctraits.c that are NOT covered: (function, why the reader gave up). -/")
+    L.append("def unread : List (String × String) := [\n%s\n]" % ",\n".join("  (%s, %s)" % (lean_str(a), lean_str(b)) for a, b in unread))
     L.append("")
     L.append("/-- Names of the values the events speak about (index = the number used in `paths`). A value is named")
     L.append("after the variable / field / global it was first seen in, or after the call that produced it. -/")
